@@ -154,6 +154,7 @@ fn run_prog(idx: usize, line: &str) -> String {
   let run = v["run"].as_bool().unwrap_or(true);
   let run_ts = v["ts"].as_bool().unwrap_or(true);
   let want_strings = v["strings"].as_bool().unwrap_or(false);
+  let want_emit = v["emit"].as_bool().unwrap_or(false);
   let timeout = Duration::from_millis(v["timeout_ms"].as_u64().unwrap_or(10000));
   let mut srcs: Vec<(String, String)> = v["sources"]
     .as_object()
@@ -249,6 +250,9 @@ fn run_prog(idx: usize, line: &str) -> String {
       ans.insert("validate".into(), validate(&c.wasm).into());
       if want_strings {
         ans.insert("strings".into(), ts_strings(&c.ts).into());
+      }
+      if want_emit {
+        ans.insert("ts_text".into(), c.ts.clone().into());
       }
       if run {
         let runs = run_compiled(&c, &scratch_dir("c03", idx), timeout, run_ts);
